@@ -6,6 +6,7 @@ class C30(Spec):
     drv = "drv_c30"
     harness = "h_c30"
     required_theorems = (
+        "C30.limit_is_latest_fork",
         "C30.count_le_max",
         "C30.size_le_bound",
         "C30.encoded_le_maxBlockSize",
